@@ -11,6 +11,7 @@ import (
 	"io"
 	"net/http"
 	"runtime/debug"
+	"strings"
 	"sync"
 	"time"
 
@@ -20,6 +21,7 @@ import (
 	"google.golang.org/grpc/status"
 	"google.golang.org/protobuf/proto"
 
+	"github.com/fullstorydev/grpchan"
 	pb "github.com/fullstorydev/grpchan/grpchantesting"
 )
 
@@ -66,6 +68,12 @@ type Script struct {
 	// {client,server}-streaming (what generic proxies and hand-written registrations do); callers keep using the
 	// method's real shape, and it is the caller's descriptor that says whether one response is expected
 	RegAllBidi bool `json:",omitempty"`
+	// Wrap: the client goes through grpchan.InterceptClientConn with pass-through interceptors ("u" = a unary
+	// interceptor only, "s" = a stream interceptor only, "us" = both): a wrapper that changes nothing about a call
+	Wrap string `json:",omitempty"`
+	// OneRecv (single-response streams): the client looks at the trailers right after its one successful receive,
+	// as code using the generated CloseAndRecv does, not only after further receives
+	OneRecv bool `json:",omitempty"`
 }
 
 // chunkedWriter drops Content-Length and flushes the header, so the reply goes out chunked.
@@ -361,6 +369,22 @@ func runScriptRepeat(s *Script, name string, copts carrierOpts, n int) []*Obs {
 }
 
 func runScriptOn(s *Script, conn grpc.ClientConnInterface, o *Obs, mu *sync.Mutex) {
+	// (the wrapper is part of what is being tested: the reference run goes without it)
+	if s.Wrap != "" && o.Carrier != cGRPC {
+		var ui grpc.UnaryClientInterceptor
+		var si grpc.StreamClientInterceptor
+		if strings.Contains(s.Wrap, "u") {
+			ui = func(ctx context.Context, method string, req, reply interface{}, cc *grpc.ClientConn, invoker grpc.UnaryInvoker, opts ...grpc.CallOption) error {
+				return invoker(ctx, method, req, reply, cc, opts...)
+			}
+		}
+		if strings.Contains(s.Wrap, "s") {
+			si = func(ctx context.Context, desc *grpc.StreamDesc, cc *grpc.ClientConn, method string, streamer grpc.Streamer, opts ...grpc.CallOption) (grpc.ClientStream, error) {
+				return streamer(ctx, desc, cc, method, opts...)
+			}
+		}
+		conn = grpchan.InterceptClientConn(conn, ui, si)
+	}
 	ctx, cancel := context.WithCancel(context.Background())
 	defer cancel()
 	if s.Deadline {
@@ -464,6 +488,8 @@ func runScriptOn(s *Script, conn grpc.ClientConnInterface, o *Obs, mu *sync.Mute
 			mu.Unlock()
 		}
 		var final error
+		var earlyTrailer metadata.MD
+		var earlyTlrOpts []metadata.MD
 		got := 0
 		for i := 0; i < len(s.Resps)+len(s.HOps)+4; i++ {
 			if s.HeaderAt == i {
@@ -481,6 +507,15 @@ func runScriptOn(s *Script, conn grpc.ClientConnInterface, o *Obs, mu *sync.Mute
 			got++
 			o.Recvs = append(o.Recvs, RecvRes{Msg: detBytes(m)})
 			mu.Unlock()
+			if s.OneRecv && got == 1 && !serverStreaming(s.Kind) {
+				earlyTrailer = cs.Trailer().Copy()
+				if earlyTrailer == nil {
+					earlyTrailer = metadata.MD{}
+				}
+				for _, t := range o.TlrOpts {
+					earlyTlrOpts = append(earlyTlrOpts, t.Copy())
+				}
+			}
 		}
 		if s.HeaderAt >= 0 && !o.HeaderCalled {
 			callHeader(got)
@@ -502,6 +537,10 @@ func runScriptOn(s *Script, conn grpc.ClientConnInterface, o *Obs, mu *sync.Mute
 		mu.Lock()
 		o.After = after
 		o.TrailerMD = tr.Copy()
+		if earlyTrailer != nil {
+			o.TrailerMD = earlyTrailer
+			copy(o.TlrOpts, earlyTlrOpts)
+		}
 		o.finalErr = final
 		o.Final = observeErr(final)
 		mu.Unlock()
